@@ -201,7 +201,8 @@ def check_case(case):
         start = vs[case["uni"][0]]
         if fillers:
             classes.add("universe-with-%d-filler-members" % len(fillers))
-        sub = Universe(vertices=u.vertices[: max(1, (len(u.vertices) + 1) // 2)] + [v for v in vs if all(v is not m for m in u.vertices)][:1])
+        real = [m for m in u.vertices if all(m is not f for f in fillers)]      # the re-entrant callbacks' universe stays small
+        sub = Universe(vertices=real[: max(1, (len(real) + 1) // 2)] + [v for v in vs if all(v is not m for m in u.vertices)][:1])
         if case.get("degen") and ls:
             # a link that has LOST an end (public Link.unlink_from) but is still attached at the other one
             l = ls[case["degen"][0] % len(ls)]
